@@ -926,10 +926,93 @@ func readBatchContract(c *Ctx, r *Rule) {
 	}
 }
 
+// errFirstRule: v, err := lib.F(...) with v a pointer or an interface: every use of v as a receiver, a
+// dereference or the subject of a defer lies where err == nil (or v != nil) is established.  Library
+// functions return a nil v with a non-nil error; `defer v.Close()` placed before the error test, or a
+// use on the error path, is a nil dereference for exactly the inputs the library rejects.
+func errFirstRule(r *Rule, scope []*ssa.Function) {
+	isErr := func(t types.Type) bool {
+		n, ok := t.(*types.Named)
+		return ok && n.Obj().Pkg() == nil && n.Obj().Name() == "error"
+	}
+	for _, fn := range scope {
+		eachInstr(fn, func(in ssa.Instruction) {
+			cl, ok := in.(*ssa.Call)
+			if !ok {
+				return
+			}
+			tup, ok := cl.Type().(*types.Tuple)
+			if !ok || tup.Len() < 2 || !isErr(tup.At(tup.Len()-1).Type()) {
+				return
+			}
+			if cal := staticCallee(cl); cal != nil && isModPath(fnPkgPath(cal)) {
+				return // module functions have their own contracts (partial results with an error)
+			}
+			if cl.Call.IsInvoke() {
+				if n, isN := types.Unalias(cl.Call.Value.Type()).(*types.Named); isN && n.Obj().Pkg() != nil && isModPath(n.Obj().Pkg().Path()) {
+					return
+				}
+			}
+			var errEx *ssa.Extract
+			var vals []*ssa.Extract
+			for _, ref := range referrers(cl) {
+				ex, ok := ref.(*ssa.Extract)
+				if !ok {
+					continue
+				}
+				if ex.Index == tup.Len()-1 {
+					errEx = ex
+					continue
+				}
+				switch ex.Type().Underlying().(type) {
+				case *types.Pointer, *types.Interface:
+					vals = append(vals, ex)
+				}
+			}
+			if errEx == nil {
+				return // the error is discarded: another kind of defect, not decided here
+			}
+			for _, v := range vals {
+				for _, use := range referrers(v) {
+					what := ""
+					switch u := use.(type) {
+					case ssa.CallInstruction:
+						cc := u.Common()
+						if cc.IsInvoke() && cc.Value == ssa.Value(v) {
+							what = "method " + cc.Method.Name() + " called"
+						} else if cal := staticCallee(u); cal != nil && cal.Signature.Recv() != nil && len(cc.Args) > 0 && cc.Args[0] == ssa.Value(v) {
+							what = "method " + cal.Name() + " called"
+						}
+						if _, isDefer := u.(*ssa.Defer); isDefer && what != "" {
+							what += " (deferred)"
+						}
+					case *ssa.FieldAddr:
+						if u.X == ssa.Value(v) {
+							what = "field read"
+						}
+					case *ssa.UnOp:
+						if u.Op == token.MUL && u.X == ssa.Value(v) {
+							what = "dereferenced"
+						}
+					}
+					if what == "" {
+						continue
+					}
+					facts := factsAt(use.Block())
+					isE := func(x ssa.Value) bool { return x == ssa.Value(errEx) }
+					isV := func(x ssa.Value) bool { return x == ssa.Value(v) }
+					ok := knownNil(facts, isE) || knownNonNil(facts, isV)
+					r.Check(FuncName(fn)+":"+shortCallee(cl)+":result-used-after-error-test:"+what, ok, use.Pos(), "the result of "+shortCallee(cl)+" is used ("+what+") only where its error is known to be nil")
+				}
+			}
+		})
+	}
+}
+
 func c03(c *Ctx) {
 	w := c.W
 	c.Explanation = "C03 (no network input can crash ingestion): every index, slice, make, unchecked type assertion, integer division, nested-map write and explicit abort in the code reachable from the datagram receiver, the parser (incl. the lexer's state functions and the whole synchronous handler chain) and the two HTTP ingestion handlers is an obligation; each is discharged from dominating branch conditions, wrap-aware SSA definitions, length facts, memory versions, loop induction and named library models / assumptions by Fourier–Motzkin refutation of its negation. Undischarged or undecided obligations fail the check. Every handler path answers with exactly one status (C14.R5 rules)."
-	c.NotDecided = []string{"nil-pointer dereferences and sends on closed channels (not enumerated)", "memory exhaustion by huge or highly compressible bodies", "liveness ('wedge') in general", "panics inside third-party libraries"}
+	c.NotDecided = []string{"nil-pointer dereferences other than library results used before their error test (R5) and unpopulated batches (R4); sends on closed channels", "memory exhaustion by huge or highly compressible bodies", "liveness ('wedge') in general", "panics inside third-party libraries"}
 	e := newBndEngine(w)
 	scope := c03Scope(w)
 	added := 0
@@ -1014,6 +1097,10 @@ func c03(c *Ctx) {
 				r.Check(FuncName(fn)+":populated:"+exprString(ms, 0), okp, ms.Pos(), detail)
 			})
 		}
+	})
+
+	c.Rule("C03.R5", "a pointer or interface result that a library call returns together with an error is dereferenced, called or deferred only where that error is known to be nil (or the result known to be non-nil)", 3, func(r *Rule) {
+		errFirstRule(r, scope)
 	})
 
 	c.Rule("C03.R3", "every request is answered with exactly one status and errors dispatch nothing (C14.R5)", 10, func(r *Rule) {
